@@ -164,6 +164,32 @@ fn collect_stream(cl: &mut Client, id: u32, want: usize, is_query: bool, total_f
                     false
                 }
             }
+            Frame::StreamText(t) => {
+                // text mode: "stream:<id> msg(<stream position>):<header text>"
+                let parsed = (|| {
+                    let rest = t.strip_prefix("stream:")?;
+                    let (sid, rest) = rest.split_once(' ')?;
+                    let rest = rest.strip_prefix("msg(")?;
+                    let (pos, text) = rest.split_once("):")?;
+                    let index: u32 = text.split(' ').next()?.parse().ok()?;
+                    Some((sid.parse::<u32>().ok()?, pos.parse::<u32>().ok()?, index, text.to_string()))
+                })();
+                match parsed {
+                    Some((sid, pos, index, text)) if sid == id => {
+                        // reception_time u64::MAX marks a text mode line; timestamp_dms carries the announced stream position
+                        got.push(RMsg { index, reception_time: u64::MAX, timestamp_dms: pos, ecu: 0, apid: 0, ctid: 0, lifecycle_id: 0, htyp: 0, mcnt: 0, verb_mstp_mtin: 0, noar: 0, text });
+                        true
+                    }
+                    Some((sid, ..)) => {
+                        foreign.push(sid);
+                        false
+                    }
+                    None => {
+                        got.push(RMsg { index: u32::MAX, reception_time: u64::MAX, timestamp_dms: u32::MAX, ecu: 0, apid: 0, ctid: 0, lifecycle_id: 0, htyp: 0, mcnt: 0, verb_mstp_mtin: 0, noar: 0, text: t });
+                        true
+                    }
+                }
+            }
             Frame::StreamInfo { stream_id, processed, total, .. } => {
                 if stream_id == id && processed >= total_file_msgs && total >= total_file_msgs {
                     *file_done = true;
@@ -208,12 +234,23 @@ fn collect_stream(cl: &mut Client, id: u32, want: usize, is_query: bool, total_f
     (got, ended, foreign)
 }
 
-fn check_msgs(got: &[RMsg], exp: &[usize], log: &Log) -> Option<String> {
+fn check_msgs(got: &[RMsg], exp: &[usize], log: &Log, first_pos: usize) -> Option<String> {
     if got.len() != exp.len() {
         return Some(format!("{} messages delivered, expected {} (first expected positions {:?})", got.len(), exp.len(), exp.iter().take(5).collect::<Vec<_>>()));
     }
     for (k, (g, e)) in got.iter().zip(exp.iter()).enumerate() {
         let (m, t) = &log.msgs[*e];
+        if g.reception_time == u64::MAX {
+            // a text mode line: announced position, index and the header text (date/time tokens depend on the time zone and are skipped)
+            let mut w = Vec::new();
+            let _ = m.header_as_text_to_write(&mut w);
+            let want = String::from_utf8_lossy(&w).to_string();
+            let tok = |s: &str| -> Vec<String> { s.split_whitespace().enumerate().filter(|(i, _)| *i != 1 && *i != 2).map(|(_, t)| t.to_string()).collect() };
+            if g.index != m.index || g.timestamp_dms as usize != first_pos + k || tok(&g.text) != tok(&want) {
+                return Some(format!("text line {} is msg({}) {:?}, expected msg({}) for file position {}: {:?}", k, g.timestamp_dms, g.text, first_pos + k, e, want));
+            }
+            continue;
+        }
         let eh = m.extended_header.as_ref().unwrap();
         let ok = g.index == m.index
             && g.reception_time == m.reception_time_us
@@ -315,7 +352,12 @@ fn bin_session(rep: &mut Report, rng: &mut Rng, srv: &mut Server, logs: &[Log], 
             }
         };
         let cmd = if is_query { "query" } else { "stream" };
-        let (r, pre) = send(&mut cl, format!("{} {}", cmd, json!({"window":[w0, w1], "binary": true, "filters": fs.iter().map(to_json_value).collect::<Vec<_>>()})), &mut history);
+        // 1/4 of the streams in text mode (one text frame per message: "stream:<id> msg(<pos>):<header>")
+        let binary = is_query || !rng.chance(1, 4);
+        if !binary {
+            rep.inc("text_mode_streams");
+        }
+        let (r, pre) = send(&mut cl, format!("{} {}", cmd, json!({"window":[w0, w1], "binary": binary, "filters": fs.iter().map(to_json_value).collect::<Vec<_>>()})), &mut history);
         let reply = match r {
             Some(r) if r.starts_with("ok:") => r,
             other => fail!("bin:stream-rejected", format!("{:?}", other)),
@@ -325,8 +367,8 @@ fn bin_session(rep: &mut Report, rng: &mut Rng, srv: &mut Server, logs: &[Log], 
             None => fail!("bin:reply-without-id", reply),
         };
         // never before the reply announcing the id
-        if pre.iter().any(|f| matches!(f, Frame::DltMsgs(i, _) if *i == id)) {
-            fail!("bin:data-before-reply", format!("DltMsgs for stream {} arrived before its ok: reply", id));
+        if pre.iter().any(|f| matches!(f, Frame::DltMsgs(i, _) if *i == id) || matches!(f, Frame::StreamText(t) if t.starts_with(&format!("stream:{} ", id)))) {
+            fail!("bin:data-before-reply", format!("data for stream {} arrived before its ok: reply", id));
         }
         // a query delivers positions [0, w1) of the filtered sequence? no: [w0, w1) like a stream
         let exp: Vec<usize> = stream_pos.iter().copied().skip(w0).take(w1.saturating_sub(w0)).collect();
@@ -336,7 +378,7 @@ fn bin_session(rep: &mut Report, rng: &mut Rng, srv: &mut Server, logs: &[Log], 
             rep.inc("inconclusive_window_wait_timed_out_while_parsing");
             return None;
         }
-        if let Some(d) = check_msgs(&got, &exp, log) {
+        if let Some(d) = check_msgs(&got, &exp, log, w0) {
             let class = if is_query { "bin:query-window" } else { "bin:stream-window" };
             fail!(class, format!("{} window [{},{}) of {} stream positions ({} filters, active {}): {}", cmd, w0, w1, stream_pos.len(), nf, filters_active, d));
         }
@@ -371,7 +413,7 @@ fn bin_session(rep: &mut Report, rng: &mut Rng, srv: &mut Server, logs: &[Log], 
                 rep.inc("inconclusive_window_wait_timed_out_while_parsing");
                 return None;
             }
-            if let Some(d) = check_msgs(&got, &exp, log) {
+            if let Some(d) = check_msgs(&got, &exp, log, a) {
                 fail!("bin:window-after-change", format!("window [{},{}) after stream_change_window: {}", a, b, d));
             }
             rep.inc("window_changes_checked");
